@@ -5,6 +5,8 @@ from . import conn_gen, conn_mon, c01
 
 ID = "C13"
 ENGINE = "conn"
+# companion pass: the per-address TCP connect deadline is exercised on engine disc (C14's generator)
+ALSO = [("c14", 0)]
 VARIANT = "std"
 STATEFUL = True
 LEVEL = "proof"
